@@ -151,6 +151,19 @@ class C07(Prop):
                 ds.create_bucket("hb", m["type"], m["client"], m["hostname"], created=storelib.us_to_dt(T0))
             ds["other"].insert([mk_event(e) for e in case["other"]])
             other_before = storelib.dump(store)["other"]
+            # a second memory store of the same process holds a bucket of the same id (two independent Datastore objects)
+            twin = twin_before = None
+            if case["backend"] == "memory":
+                from aw_datastore import Datastore
+                from aw_datastore.storages import MemoryStorage
+
+                twin = Datastore(MemoryStorage, testing=True)
+                twin.create_bucket("hb2", "t", "c", "h", created=storelib.us_to_dt(T0))
+                twin["hb2"].insert(mk_event([None, T0 - 5 * U, U, LB]))
+                twin_before = [ev_tuple(e) for e in twin["hb2"].get(-1)]
+                if "hb2" in ds.buckets():
+                    return {"final": [], "ids": [], "other_same": False, "steps": [], "reduce": [],
+                            "twin": "a bucket created in another MemoryStorage object shows up in this one"}
             bucket = ds["hb"]
             steps = []
             noise = case.get("noise") or {}
@@ -184,9 +197,12 @@ class C07(Prop):
                     steps.append(sorted((ev_tuple(e)[1:] for e in bucket.get(-1))))
             d = storelib.dump(store)
             red = heartbeat_reduce([mk_event(e) for e in case["stream"]], case["pt"])
+            other_same = d["other"] == other_before
+            if twin is not None and ([ev_tuple(e) for e in twin["hb2"].get(-1)] != twin_before or "hb" in twin.buckets()):
+                other_same = False
             return {"final": [e[1:] for e in sorted(d["hb"]["events"], key=lambda e: e[1])],
                     "ids": sorted(e[0] for e in d["hb"]["events"]),
-                    "other_same": d["other"] == other_before, "steps": steps,
+                    "other_same": other_same, "steps": steps,
                     "reduce": [ev_tuple(e)[1:] for e in red]}
         finally:
             store.close()
